@@ -490,7 +490,8 @@ class FieldLoop(Contract):
                         F(c, st, c['ct'], 'ct_flags_mut') == F(c, entry, c['ct'], 'ct_flags_mut'),
                         F(c, st, ft, 'ct_flags_mut') == F(c, entry, ft, 'ct_flags_mut'),
                         c.valid(c['ct'], 104), c.valid(ft, 104))),
-                ('no error so far, no out-of-class event', z3.And(st.err == entry.err, events(st) == events(entry)))]
+                ('no error so far, no out-of-class event', z3.And(st.err == entry.err, events(st) == events(entry))),
+                ('the module global ffi.error is not touched', c.global_value(st, 'FFIError') == c.global_value(entry, 'FFIError'))]
 
     loops = property(lambda self: {1: LoopSpec(invariant=self._loop1_inv)})
 
